@@ -56,11 +56,19 @@ def _slots_in(prog, fn_key, callee_pred, state_adt, variants):
                 continue
             key = prog.callee_key(prog.insts[inst].calls.get(b, {}))
             if callee_pred(key):
-                f = mentions_field(arg_expr(body, t, 0), state_adt, None) if False else None
                 e = arg_expr(body, t, 0)
+                exprs = [e]
+                # the receiver may be chosen first and used afterwards (`let a = if c { &self.x } else { &self.y }; a.as_ref()`):
+                # its definitions on the paths reached under this action
                 for x in subexprs(e):
-                    if x[0] == "field" and x[3] == state_adt:
-                        slots.add(x[2])
+                    if x[0] == "phi":
+                        for d in body.defs().get(x[1], []):
+                            if d[1] in reached and d[0] == "stmt" and d[3]["k"] == "=":
+                                exprs.append(body.expr_of_rvalue(d[3]["rv"]))
+                for e2 in exprs:
+                    for x in subexprs(e2):
+                        if x[0] == "field" and x[3] == state_adt:
+                            slots.add(x[2])
         out[name] = slots
     return out
 
